@@ -65,6 +65,8 @@ type Model struct {
 	retSelf   map[*ssa.Function]bool
 	ctorMemo  map[*ssa.Function]bool
 	storeSets map[*ssa.Function]map[int]map[int]*StoreSet
+	roots     *rootInfo
+	loadSets  map[*ssa.Function]map[int]map[int]bool
 	live      map[*ssa.Function][]bool
 	idom      map[*ssa.Function][]int
 	ipdom     map[*ssa.Function][]int
